@@ -408,7 +408,158 @@ class C02(Property):
             os.makedirs(os.path.dirname(path), exist_ok=True)
             with open(path, "w", encoding="utf-8") as f:
                 f.write(body)
-        return [note, self.pre_build_scan(repo)]
+        return [note, self.pre_build_scan(repo)] + self.pre_build_p5(repo)
+
+    def pre_build_p5(self, repo):
+        """phase 5 translator steps (ast): (1) ChunkTasks._max_chunker as a small program over the statements of Model.CStmt
+        -> Generated/C02MaxChunker.lean (Props: `max_chunker_as_modelled`); (2) the write loop of DiskSink and the batch size
+        Experiment.run gives it -> Generated/C02SinkLoop.lean (Props: `sink_loop_as_modelled`)"""
+        import ast
+        u = ast.unparse
+        gen = os.path.join(lean.LEAN_DIR, "CobaVerif", "Generated")
+        lst = lambda xs: "[" + ", ".join(json.dumps(x, ensure_ascii=True) for x in xs) + "]"
+        notes = []
+
+        def put(name, body):
+            path = os.path.join(gen, name)
+            old = open(path, encoding="utf-8").read() if os.path.exists(path) else None
+            if old != body:
+                with open(path, "w", encoding="utf-8") as f:
+                    f.write(body)
+
+        def strip_doc(body):
+            return [x for x in body if not (isinstance(x, ast.Expr) and isinstance(x.value, ast.Constant) and isinstance(x.value.value, str))]
+
+        # (1) _max_chunker
+        prog, unknown, init, call, why = [], [], "", "", None
+        try:
+            with open(os.path.join(repo, "coba/experiments/process.py"), encoding="utf-8") as f:
+                tree = ast.parse(f.read())
+            cls = next(n for n in ast.walk(tree) if isinstance(n, ast.ClassDef) and n.name == "ChunkTasks")
+            fn = next(n for n in cls.body if isinstance(n, ast.FunctionDef) and n.name == "_max_chunker")
+            a_it, a_max = [a.arg for a in fn.args.args][1:3]
+            names = {"it": None, "batch": None}
+
+            def simple(x):
+                if isinstance(x, ast.Assign) and len(x.targets) == 1 and isinstance(x.targets[0], ast.Name) and isinstance(x.value, ast.Call):
+                    t, v = x.targets[0].id, x.value
+                    if u(v.func) == "iter" and len(v.args) == 1 and u(v.args[0]) == a_it and not v.keywords and names["it"] is None:
+                        names["it"] = t
+                        return "iterInit"
+                    if u(v) == "list(islice(%s, %s))" % (names["it"] or a_it, a_max) and names["batch"] in (None, t):
+                        names["batch"] = t
+                        return "takeBatch"
+                if isinstance(x, ast.Expr) and isinstance(x.value, ast.Yield) and x.value.value is not None and u(x.value.value) == names["batch"]:
+                    return "yieldBatch"
+                return None
+            for x in strip_doc(fn.body):
+                sm = simple(x)
+                if sm:
+                    prog.append(".simple .%s" % sm)
+                elif isinstance(x, ast.While) and not x.orelse and names["batch"] and u(x.test) == "%s != []" % names["batch"]:
+                    inner = []
+                    for y in x.body:
+                        sy = simple(y)
+                        if sy:
+                            inner.append("." + sy)
+                        else:
+                            unknown.append(u(y))
+                    prog.append(".whileNonEmpty [%s]" % ", ".join(inner))
+                else:
+                    unknown.append(u(x))
+            ini = next(n for n in cls.body if isinstance(n, ast.FunctionDef) and n.name == "__init__")
+            init = next(u(x.value) for x in ast.walk(ini) if isinstance(x, ast.Assign) and u(x.targets[0]) == "self._max_tasks")
+            cs = [c for c in ast.walk(cls) if isinstance(c, ast.Call) and u(c.func) == "self._max_chunker"]
+            call = ";".join(u(c.args[1]) if len(c.args) == 2 and not c.keywords else "?" for c in cs)
+        except Exception as e:
+            why = repr(e)
+        ok = why is None
+        if not ok:
+            prog, unknown, init, call = [".simple .iterInit", ".simple .takeBatch", ".whileNonEmpty [.yieldBatch, .takeBatch]"], [], "max_tasks or None", "self._max_tasks"
+        put("C02MaxChunker.lean",
+            "-- GENERATED by harness/props/c02.py (ast) from coba/experiments/process.py `ChunkTasks._max_chunker` on every run; do not edit.\n"
+            "import CobaVerif.Model.C02\n"
+            "namespace Coba.Generated.C02Chunker\nopen Coba.C02\n"
+            "/-- the statements of `_max_chunker` in source order -/\n"
+            "def prog : List CStmt := [%s]\n"
+            "/-- statements the translator could not express (must be none) -/\n"
+            "def unknown : List String := %s\n"
+            "/-- what `__init__` stores as `self._max_tasks`, and what `_chunks` passes as `max_tasks` -/\n"
+            "def maxTasksInit : String := %s\n"
+            "def maxTasksArg : String := %s\n"
+            "def extracted : Bool := %s\n"
+            "end Coba.Generated.C02Chunker\n" % (", ".join(prog), lst(unknown), json.dumps(init), json.dumps(call), "true" if ok else "false"))
+        notes.append(("_max_chunker: %d statements, %d not expressible, max_tasks = %r" % (len(prog), len(unknown), init)) if ok else
+                     ("_max_chunker could NOT be extracted (%s): obligation max_chunker_as_modelled is about defaults only" % why))
+
+        # (2) DiskSink.write / _get_batch / _unfinished and the batch size run() uses
+        labels = ["while:self._unfinished(batch)", "batch=self._get_batch(lines)", "with-self-inside-while", "for-line-inside-with",
+                  "write:(line+'\\n').encode", "flush-after-each-write", "get_batch:islice(lines,self._batch)", "get_batch:list-when-batch",
+                  "unfinished:batch-is-None", "unfinished:list-of-len==self._batch", "unfinished:or"]
+        shape, batch, why = [], None, None
+        try:
+            with open(os.path.join(repo, "coba/pipes/sinks.py"), encoding="utf-8") as f:
+                tree = ast.parse(f.read())
+            cls = next(n for n in ast.walk(tree) if isinstance(n, ast.ClassDef) and n.name == "DiskSink")
+            fns = {n.name: n for n in cls.body if isinstance(n, ast.FunctionDef)}
+            wl = [x for x in fns["write"].body if isinstance(x, ast.While)]
+            if len(wl) == 1:
+                w = wl[0]
+                if u(w.test) == "self._unfinished(batch)" and not w.orelse:
+                    shape.append(labels[0])
+                if len(w.body) == 2 and u(w.body[0]) == "batch = self._get_batch(lines)":
+                    shape.append(labels[1])
+                if len(w.body) == 2 and isinstance(w.body[1], ast.With) and len(w.body[1].items) == 1 and u(w.body[1].items[0].context_expr) == "self":
+                    shape.append(labels[2])
+                    wi = w.body[1]
+                    if len(wi.body) == 1 and isinstance(wi.body[0], ast.For) and u(wi.body[0].iter) == "batch" and not wi.body[0].orelse:
+                        shape.append(labels[3])
+                        fo = wi.body[0]
+                        tv = u(fo.target)
+                        if len(fo.body) == 2 and u(fo.body[0]) == "self._file.write((%s + '\\n').encode('utf-8'))" % tv:
+                            shape.append(labels[4])
+                        if len(fo.body) == 2 and u(fo.body[1]) == "self._file.flush()":
+                            shape.append(labels[5])
+            gb = [u(x) for x in strip_doc(fns["_get_batch"].body)]
+            if gb and gb[0] == "batch = islice(lines, self._batch)" and gb[-1] == "return batch":
+                shape.append(labels[6])
+            if len(gb) == 3 and gb[1] == "if self._batch:\n    batch = list(batch)":
+                shape.append(labels[7])
+            uf = [u(x) for x in strip_doc(fns["_unfinished"].body)]
+            if len(uf) == 3 and uf[0] == "not_started = batch is None":
+                shape.append(labels[8])
+            if len(uf) == 3 and uf[1] == "not_finished = isinstance(batch, list) and len(batch) == self._batch":
+                shape.append(labels[9])
+            if len(uf) == 3 and uf[2] == "return not_started or not_finished":
+                shape.append(labels[10])
+            with open(os.path.join(repo, "coba/experiments/core.py"), encoding="utf-8") as f:
+                tree = ast.parse(f.read())
+            runf = next(n for n in ast.walk(tree) if isinstance(n, ast.FunctionDef) and n.name == "run")
+            calls = [c for c in ast.walk(runf) if isinstance(c, ast.Call) and u(c.func) == "DiskSink"]
+            if len(calls) == 1:
+                kw = {k.arg: k.value for k in calls[0].keywords}
+                v = kw.get("batch", calls[0].args[2] if len(calls[0].args) > 2 else None)
+                if v is None:
+                    batch = 0
+                elif isinstance(v, ast.Constant) and (v.value is None or isinstance(v.value, int)):
+                    batch = int(v.value or 0)
+        except Exception as e:
+            why = repr(e)
+        ok = why is None and batch is not None
+        if not ok:
+            shape, batch = labels, 1
+        put("C02SinkLoop.lean",
+            "-- GENERATED by harness/props/c02.py (ast) from coba/pipes/sinks.py `DiskSink` and coba/experiments/core.py `Experiment.run` on every run; do not edit.\n"
+            "namespace Coba.Generated.C02Sink\n"
+            "/-- `DiskSink(result_file, batch=N)` in `Experiment.run` (0 = None) -/\n"
+            "def batch : Nat := %d\n"
+            "/-- the statements of `write`, `_get_batch`, `_unfinished` that the model (`sinkWrite`) mirrors, as found in the source -/\n"
+            "def loopShape : List String := %s\n"
+            "def extracted : Bool := %s\n"
+            "end Coba.Generated.C02Sink\n" % (batch, lst(shape), "true" if ok else "false"))
+        notes.append(("DiskSink write loop: batch=%d, %d/%d statements as modelled" % (batch, len(shape), len(labels))) if ok else
+                     ("DiskSink write loop could NOT be extracted (%s): obligation sink_loop_as_modelled is about defaults only" % why))
+        return notes
 
     def pre_build_scan(self, repo):
         """phase 4 translator step (ast): read size, decompressor parameters and statement shape of the gz member scan of
@@ -565,8 +716,26 @@ class C02(Property):
             c["chain"] = {"p": rng.below(1001), "d": 0, "links": 1, "cfg": CFG1}
         return c
 
+    def gen_chunking(self, rng, tier):
+        """phase 5 family: chunk()ed environments resumed with maxtasksperchunk = k in 2..5, cut at EVERY record boundary, so
+        that the number of tasks that remain in a Chunk group runs through every residue modulo k (k dividing it and not)"""
+        ne = rng.choice([1, 1, 2])
+        c = {"envs": [{"n": rng.choice([1, 2]), "p": rng.below(3)} for _ in range(ne)], "lrns": [{"p": i} for i in range(rng.choice([2, 3, 3]))],
+             "vals": [{"mode": "rows", "style": rng.below(2), "nrows": 1 + rng.below(2)} for _ in range(rng.choice([1, 2]))], "desc": None,
+             "chunk": True, "gz": rng.chance(0.3)}
+        k = rng.choice([2, 3, 3, 4, 5])
+        c["cfg0"] = rng.choice([CFG1, {"processes": 1, "maxchunksperchild": 0, "maxtasksperchunk": k}])
+        c["cfg"] = {"processes": 1, "maxchunksperchild": 0, "maxtasksperchunk": k}
+        nrec = 2 + len(c["envs"]) + len(c["lrns"]) + len(c["vals"]) + len(triples_of(c))
+        c["cuts"] = [["b", i, 0] for i in range(nrec + 1)] + [["b", rng.below(nrec + 1), rng.choice([-1, 1, 2])] for _ in range(3)]
+        if rng.chance(0.4):
+            c["chain"] = {"p": rng.below(1001), "d": 0, "links": rng.choice([1, 2]), "cfg": {"processes": 1, "maxtasksperchunk": rng.choice([2, 3, 4])}}
+        return c
+
     def generate(self, rng, tier):
         rng = rng.fork("c02")
+        if rng.chance(0.05):
+            return self.gen_chunking(rng, tier)
         if rng.chance(0.015 if tier == "quick" else 0.03):
             return self.gen_compressible(rng, tier)       # the per-case streams of core.prng overlap (shifted by one output) for neighbouring case numbers
         if rng.chance(0.055 if tier == "quick" else 0.07):
@@ -607,6 +776,8 @@ class C02(Property):
         rng = rng.fork("c02s")
         if rng.chance(0.25):
             return self.gen_long(rng, tier)
+        if rng.chance(0.15):
+            return self.gen_chunking(rng, tier)
         c = self.gen_exp(rng, small=True)
         self.gen_name(rng, c)
         c["cfg0"], c["cfg"] = CFG1, self.gen_cfg(rng, False)
@@ -659,6 +830,15 @@ class C02(Property):
                            cuts=ALL, chain={"p": 100 * seed, "d": 1, "links": 3, "cfg": CFG1}))
         cs.append(dict(base, envs=[{"n": 1}, {"n": 2}], lrns=[{}, {}], gz=False, cfg={"processes": 2}, cuts=[["b", 4, 3], ["b", 5, 0]]))
         cs.append(dict(base, envs=[{"n": 1}, {"n": 2}], chunk=True, gz=False, cfg={"processes": 1, "maxtasksperchunk": 1}, cuts=[["b", 4, 3], ["b", 5, 0], ["b", 3, -1]]))
+        # phase 5: maxtasksperchunk k against every number of remaining tasks (cut at every record boundary): one chunk()ed environment
+        # with 3 learners x 2 evaluators = a Chunk group of 7 tasks (k = 2, 3, 4 divide none of 7; the cuts leave 6, 5, ... 0)
+        # phase 5: multi-process resumption of chunk()ed environments (chunks of several records: per-chunk order must survive)
+        cs.append(dict(base, envs=[{"n": 1}, {"n": 2}], lrns=[{}, {"p": 1}], vals=[{"nrows": 1}, {"nrows": 2}], chunk=True, gz=False,
+                       cfg={"processes": 2, "maxchunksperchild": 0, "maxtasksperchunk": 3}, cuts=[["b", 4, 0], ["b", 9, 1]]))
+        for k in (2, 3, 4):
+            cs.append(dict(base, lrns=[{}, {"p": 1}, {"p": 2}], vals=[{"nrows": 1}, {"nrows": 2}], chunk=True, gz=(k == 3),
+                           cfg0={"processes": 1, "maxchunksperchild": 0, "maxtasksperchunk": k if k != 2 else 0},
+                           cfg={"processes": 1, "maxchunksperchild": 0, "maxtasksperchunk": k}, cuts=[["b", i, 0] for i in range(15)] + [["b", 9, 1], ["b", 12, -1]]))
         return cs
 
     def exhaustive(self, tier):
@@ -853,7 +1033,14 @@ class C02(Property):
                     alt = self.alt_case(case, len(lg.data))
                     tr1 = build(alt, trace)._triples
                     req["alt_given"] = [len(set([l for _, l, _ in tr1])), len(set([e for e, _, _ in tr1]))]
+                    # phase 5: read windows for the windowed repair (C), (n, max_tasks) pairs for the extracted `_max_chunker` program:
+                    # the number of tasks the longest/shortest cut leaves, +-1, against max_tasks 0..4 and the configured one
+                    req["win_sizes"] = [1, 7, 64, 4096] if len(lg.data) <= 20000 else [4096, 65536]
+                    n_all = len(triples_of(case)) + len(em_) + len(ids_of(case)[1]) + len(ids_of(case)[2])
+                    ms_ = sorted(set([0, 1, 2, 3, 4, req["max_tasks"]]))
+                    req["chunker_probe"] = [[n_, m_] for n_ in sorted(set([0, 1, max(0, n_all - 1), n_all, n_all + 1, len(lg.lines) % 7 + 2])) for m_ in ms_]
                     ans = driver.ask(req)
+                    self.p5_checks(case, req, ans, fails, tags)
                     if "given_shape" in ans and list(ans["given_shape"]) != real_given:
                         fails.append(F("A", "n_learners/n_environments of the experiment given: implementation %s, model %s" % (real_given, ans["given_shape"]), "A:given-shape"))
                     if "given_shape" in ans and req["exp_shape"] != real_given:
@@ -1025,10 +1212,61 @@ class C02(Property):
         ob["bfail"] = len([f for f in fails if f["kind"] == "B"]) > nb0
         return ob
 
+    def p5_checks(self, case, req, ans, fails, tags):
+        """phase 5: the extracted `_max_chunker` program (run by the Lean driver) against the real method on plain lists"""
+        if not ans.get("chunker_extracted", True):
+            tags.append("max-chunker:not-extracted")
+        if not ans.get("sink_extracted", True):
+            tags.append("sink-loop:not-extracted")
+        probe = ans.get("chunker_probe")
+        if probe:
+            from coba.experiments.process import ChunkTasks
+            for ent in probe:
+                if ent is None:
+                    continue
+                n_, m_, lens, same = ent
+                real = [len(b) for b in ChunkTasks(m_)._max_chunker(list(range(n_)), m_ or None)]
+                if m_ >= 1 and n_ % m_ != 0:
+                    tags.append("max-chunker:max_tasks-does-not-divide")
+                if real != list(lens):
+                    fails.append(F("A", "_max_chunker(%d tasks, max_tasks=%d): implementation yields batches of %s, the extracted program (model) %s" % (n_, m_, real, lens),
+                                   "A:max-chunker:" + ("uneven" if m_ and n_ % m_ else "even")))
+                if not same:
+                    fails.append(F("C", "runChunker of the extracted program differs from the model's batches on (%d tasks, max_tasks=%d)" % (n_, m_), "C:max-chunker-prog"))
+
     def alt_case(self, case, salt):
-        """a genuinely different experiment: one learner more, or (every other time, when there are two) one learner less"""
+        """a genuinely different experiment: one learner more, or (every other time, when there are two) one learner less;
+        phase 5: also one environment more / less and one evaluator more (the test counts learners and environments only)"""
         nl = len(case["lrns"])
         tr = case.get("triples")
+        mode = salt % 6
+        ne, nv = len(case["envs"]), len(case["vals"])
+        chf = case.get("chunk")
+        if mode == 3 and ne >= 2 and (tr is None or (any(t[0] == ne - 1 for t in tr) and any(t[0] != ne - 1 for t in tr))):
+            alt = dict(case, envs=list(case["envs"])[:-1], rel=False)
+            if tr is not None:
+                alt["triples"] = [list(t) for t in tr if t[0] != ne - 1]
+            if isinstance(chf, (list, tuple)):
+                alt["chunk"] = list(chf)[:ne - 1]
+            for key in ("empty", "boom"):
+                if case.get(key):
+                    alt[key] = [p_ for p_ in case[key] if p_[0] != ne - 1]
+            alt["_alt"] = "one environment less"
+            return alt
+        if mode in (2, 3):
+            alt = dict(case, envs=list(case["envs"]) + [{"n": 2}], rel=False)
+            if tr is not None:
+                alt["triples"] = [list(t) for t in tr] + [[ne, tr[0][1], tr[0][2]]]
+            if isinstance(chf, (list, tuple)):
+                alt["chunk"] = list(chf) + [False] * (ne + 1 - len(chf))
+            alt["_alt"] = "one environment more"
+            return alt
+        if mode == 4:
+            alt = dict(case, vals=list(case["vals"]) + [{"nrows": 2}], rel=False)
+            if tr is not None:
+                alt["triples"] = [list(t) for t in tr] + [[tr[0][0], tr[0][1], nv]]
+            alt["_alt"] = "one evaluator more"
+            return alt
         if nl >= 2 and salt % 2 == 1 and (tr is None or any(t[1] != nl - 1 for t in tr)) and \
                 (tr is None or len(set(t[1] for t in tr)) != len(set(t[1] for t in tr if t[1] != nl - 1))):
             alt = dict(case, lrns=list(case["lrns"])[:-1], rel=False)
@@ -1093,6 +1331,19 @@ class C02(Property):
             if bool(mo["from_file_cut"]) != ob["ff_cut"]:
                 fails.append(F("A", "%s: Result.from_file on the cut file (no resuming): implementation %s, model %s" % (
                     where, "readable" if ob["ff_cut"] else "raises", "readable" if mo["from_file_cut"] else "raises"), "A:from-file-cut:" + sigc))
+        if not gz and ob.get("ff_cut") is not None and "from_file_cut_u" in mo:
+            # phase 5: the reader as it is (universal newlines, `decodeAllU`) on the same bytes; (C) with `universal_newlines_irrelevant`
+            tags.append("decodeAllU:" + ("readable" if mo["from_file_cut_u"] else "raises"))
+            if bool(mo["from_file_cut_u"]) != ob["ff_cut"]:
+                fails.append(F("A", "%s: Result.from_file on the cut file: implementation %s, model with universal newlines (decodeAllU) %s" % (
+                    where, "readable" if ob["ff_cut"] else "raises", "readable" if mo["from_file_cut_u"] else "raises"), "A:from-file-cut-univ:" + sigc))
+            if hyp.get("no_cr") and not mo.get("univ_same", True):
+                fails.append(F("C", "%s: no record text holds a raw CR, yet decodeAllU differs from decodeAll (universal_newlines_irrelevant)" % where, "C:universal-newlines"))
+        for W_, same_, hyp_ in mo.get("win_same", []):
+            tags.append("window:%s:%s" % ("reaches-newline" if hyp_ else "shorter-than-tail", "same" if same_ else "differs"))
+            if hyp_ and not same_:
+                fails.append(F("C", "%s: the repair restricted to the last %d bytes differs although the window holds a newline (drop_torn_tail_window_independent)" % (where, W_),
+                               "C:window-independent"))
         if mo.get("mismatch"):
             fails.append(F("A", "%s: the model's n_learners/n_environments test fires on a log of the same experiment" % where, "A:shape-test-own-log:" + sigc))
         if not gz and "n_complete" in mo:
@@ -1111,6 +1362,17 @@ class C02(Property):
                 fails.append(F("A", "%s: the resumed run did not keep the %d bytes of complete gzip members / appended unreadable bytes" % (where, mo["good"]), "A:gz-kept-bytes:" + sigc))
             elif not mo["appended"] and added != b"":
                 fails.append(F("A", "%s: the model appends nothing, the run appended members holding %r" % (where, added[:60]), "A:gz-idempotent:" + sigc))
+            if added is not None and "sink_shape" in mo and not mo.get("mismatch") and len(fin) - len(keep) < 300000:
+                # phase 5: one gzip member per appended record and one empty member at the end (`gz_member_per_record`): the number
+                # of lines in every member the run added = the model of DiskSink.write with the batch size extracted from run()
+                rest_, shape_, prev_ = fin[len(keep):], [], 0
+                for end_ in gz_members(rest_):
+                    shape_.append(gzip.decompress(rest_[prev_:end_]).count(b"\n"))
+                    prev_ = end_
+                tags.append("sink-members:" + ("none-but-empty" if sum(shape_) == 0 else "records+empty"))
+                if shape_ != list(mo["sink_shape"]):
+                    fails.append(F("A", "%s: records per gzip member the resumed run added: implementation %s, model (DiskSink.write, batch=1) %s" % (
+                        where, shape_[:12], list(mo["sink_shape"])[:12]), "A:gz-member-per-record:" + sigc))
         if not gz and ob["status"] == "ok" and ob["class"] == "complete" and not mo["appended"] and ob["final_data"] != ob["cut"]:
             fails.append(F("A", "%s: a second run on the complete plain log changed the file (model: byte-identical)" % where, "A:idempotent-bytes"))
         # tasks evaluated
@@ -1143,11 +1405,36 @@ class C02(Property):
             # phase 4: single process: the ORDER of the appended records is the ChunkTasks/ProcessTasks order of the model
             i_seq = rest.split(b"\n")[:-1] if rest else []
             m_seq = [bytes(table[i][6]) for i in mo["appended_ordered"]]
+            mt_ = int(cfg.get("maxtasksperchunk", 0) or 0)
+            if mt_ >= 1 and "chunk_lens" in mo:
+                big_ = [c_ for c_ in mo["chunk_lens"] if c_ > 1 or mt_ == 1]
+                if any(0 < c_ < mt_ for c_ in mo["chunk_lens"]) and any(c_ == mt_ for c_ in mo["chunk_lens"]) and mt_ > 1:
+                    tags.append("chunking:remaining-tasks-not-multiple-of-max_tasks")
+                elif big_:
+                    tags.append("chunking:max_tasks-batches")
+                if not mo.get("chunker_prog_same", True):
+                    fails.append(F("C", "%s: the extracted _max_chunker program differs from the model's batches on the remaining tasks" % where, "C:max-chunker-prog"))
             if len(m_seq) > 1:
                 tags.append("run-order:" + ("as-maketasks" if m_seq == [bytes(table[i][6]) for i in mo["appended"]] else "differs-from-maketasks"))
             if i_seq != m_seq:
                 fails.append(F("A", "%s: ORDER of the records appended by the single-process resumed run: implementation %s, model (ChunkTasks/ProcessTasks order) %s" % (
                     where, [x[:24] for x in i_seq][:10], [x[:24] for x in m_seq][:10]), "A:appended-order:" + sigc))
+        if not ((rest and not rest.endswith(b"\n")) or i_lines != m_lines) and "chunk_seqs" in mo and \
+                (cfg.get("processes", 1) > 1 or cfg.get("maxchunksperchild", 0)):
+            # phase 5 (`multiprocess_order`): whatever the schedule, the records of one chunk reach the file in ProcessTasks order
+            i_seq = rest.split(b"\n")[:-1] if rest else []
+            nontriv = False
+            for cs_ in mo["chunk_seqs"]:
+                want = [bytes(table[i][6]) for i in cs_]
+                nontriv = nontriv or len(want) > 1
+                it_ = iter(i_seq)
+                if not all(any(x == y for y in it_) for x in want):
+                    fails.append(F("A", "%s: multi-process resumed run: the records of one chunk %s are not a subsequence of the appended records %s" % (
+                        where, [x[:24] for x in want][:8], [x[:24] for x in i_seq][:12]), "A:mp-chunk-fifo:" + sigc))
+                    break
+            tags.append("mp-order:chunk-fifo:" + ("chunks-of-several-records" if nontriv else "one-record-chunks"))
+            if "appended_ordered" in mo and len(i_seq) > 1:
+                tags.append("mp-order:" + ("as-single-process" if i_seq == [bytes(table[i][6]) for i in mo["appended_ordered"]] else "differs-from-single-process"))
         if ob["status"] == "ok" and "result_equal" in ob and bool(mo["result_equal"]) != bool(ob["result_equal"]):
             fails.append(F("A", "%s: final Result equals the uninterrupted one: implementation %s, model %s" % (where, ob["result_equal"], mo["result_equal"]),
                            "A:result-equal:" + sigc))
